@@ -690,6 +690,8 @@ pub fn check(case: &Case) -> Verdict {
                 kinds.insert("set_value_at");
             }
             Op::FromArray { ty, n, seed } => {
+                // alloc_from_array needs Copy element types: other types fold onto one of those (total interpreter)
+                let ty = &if COPY_TYS.contains(ty) { *ty } else { COPY_TYS[(*seed % COPY_TYS.len() as u64) as usize] };
                 let n = *n as usize;
                 let sz = size_of_ty(*ty);
                 let mut all = vec![];
